@@ -8,6 +8,7 @@
 // because operating on a corrupted tree may recurse or loop for ever.
 #include "xh_common.hpp"
 #include <xercesc/dom/DOM.hpp>
+#include <xercesc/dom/impl/DOMAttrMapImpl.hpp>
 #include <algorithm>
 #include <map>
 #include <csignal>
@@ -281,6 +282,15 @@ static std::string doOp(const std::vector<std::string>& a) {
             if (!n0 || !an || n0->getNodeType() != DOMNode::ELEMENT_NODE || an->getNodeType() != DOMNode::ATTRIBUTE_NODE) return "skip";
             ((DOMElement*)n0)->setIdAttributeNode((DOMAttr*)an, a[3] == "1");
             return "ok";
+        }
+        if (o == "fp" && a.size() == 3) {
+            // DOMAttrMapImpl::findNamePoint(name) itself: p<index> when found, q<insertion point> otherwise
+            DOMNode* n0 = node(a[1]);
+            if (!n0 || n0->getNodeType() != DOMNode::ELEMENT_NODE) return "skip";
+            DOMAttrMapImpl* am = (DOMAttrMapImpl*)n0->getAttributes();
+            if (!am) return "q0";
+            int i = am->findNamePoint(unhex(a[2]).data());
+            return (i >= 0 ? "p" : "q") + std::to_string(i >= 0 ? i : -1 - i);
         }
         if (o == "gi" && a.size() == 3) {
             DOMNode* d = node(a[1]);
